@@ -15,7 +15,8 @@ use crate::tree_store::btree_base::{BtreeHeader, Checksum};
 
 const UF_SLOTS: usize = 8;
 static mut UF_N: usize = 0;
-static mut UF_IN: [[u128; 7]; UF_SLOTS] = [[0; 7]; UF_SLOTS];
+// flat (no nested arrays: see the note on Kani and nested-array rows in DESIGN.md section 2)
+static mut UF_IN: [u128; 7 * UF_SLOTS] = [0; 7 * UF_SLOTS];
 static mut UF_OUT: [u128; UF_SLOTS] = [0; UF_SLOTS];
 
 fn words112(data: &[u8]) -> [u128; 7] {
@@ -30,13 +31,26 @@ fn words112(data: &[u8]) -> [u128; 7] {
     w
 }
 
-pub(crate) fn uf_checksum(data: &[u8]) -> Checksum {
+fn uf_row_eq(k: usize, b: &[u128; 7]) -> bool {
+    // explicit word compare ([u128;7] == is a 112-iteration memcmp loop)
+    unsafe {
+        UF_IN[7 * k] == b[0]
+            && UF_IN[7 * k + 1] == b[1]
+            && UF_IN[7 * k + 2] == b[2]
+            && UF_IN[7 * k + 3] == b[3]
+            && UF_IN[7 * k + 4] == b[4]
+            && UF_IN[7 * k + 5] == b[5]
+            && UF_IN[7 * k + 6] == b[6]
+    }
+}
+
+pub(in crate::tree_store::page_store) fn uf_checksum(data: &[u8]) -> Checksum {
     assert!(data.len() == SLOT_CHECKSUM_OFFSET, "slot checksum covers exactly bytes [0,112)");
     let w = words112(data);
     unsafe {
         let mut k = 0usize;
         while k < UF_SLOTS {
-            if k < UF_N && UF_IN[k] == w {
+            if k < UF_N && uf_row_eq(k, &w) {
                 return UF_OUT[k];
             }
             k += 1;
@@ -50,7 +64,11 @@ pub(crate) fn uf_checksum(data: &[u8]) -> Checksum {
             k += 1;
         }
         assert!(UF_N < UF_SLOTS, "checksum table too small for this harness");
-        UF_IN[UF_N] = w;
+        let mut j = 0usize;
+        while j < 7 {
+            UF_IN[7 * UF_N + j] = w[j];
+            j += 1;
+        }
         UF_OUT[UF_N] = out;
         UF_N += 1;
         out
@@ -65,7 +83,7 @@ fn uf_known(data: &[u8]) -> bool {
     unsafe {
         let mut k = 0usize;
         while k < UF_SLOTS {
-            if k < UF_N && UF_IN[k] == w {
+            if k < UF_N && uf_row_eq(k, &w) {
                 known = true;
             }
             k += 1;
@@ -90,7 +108,7 @@ fn any_page_number() -> PageNumber {
     PageNumber::new(region, index, order)
 }
 
-fn any_root() -> Option<BtreeHeader> {
+pub(in crate::tree_store::page_store) fn any_root() -> Option<BtreeHeader> {
     if kani::any() {
         Some(BtreeHeader::new(any_page_number(), kani::any(), kani::any()))
     } else {
@@ -98,7 +116,7 @@ fn any_root() -> Option<BtreeHeader> {
     }
 }
 
-fn root_eq(a: &Option<BtreeHeader>, b: &Option<BtreeHeader>) -> bool {
+pub(in crate::tree_store::page_store) fn root_eq(a: &Option<BtreeHeader>, b: &Option<BtreeHeader>) -> bool {
     match (a, b) {
         (None, None) => true,
         (Some(x), Some(y)) => {
@@ -145,15 +163,36 @@ fn bytes128_eq(a: &[u8], b: &[u8]) -> bool {
     eq
 }
 
+/// header with two valid slots, arbitrary flags, geometry 512/0/16, one full region
+pub(in crate::tree_store::page_store) fn any_two_valid_slots_header(p: usize) -> DatabaseHeader {
+    DatabaseHeader {
+        primary_slot: p,
+        recovery_required: true,
+        two_phase_commit: kani::any(),
+        page_size: 512,
+        region_header_pages: 0,
+        region_max_data_pages: 16,
+        full_regions: 1,
+        trailing_partial_region_pages: 0,
+        transaction_slots: [any_valid_slot(), any_valid_slot()],
+    }
+}
+
+impl DatabaseHeader {
+    pub(in crate::tree_store::page_store) fn verif_primary_index(&self) -> usize {
+        self.primary_slot
+    }
+}
+
 // ---- C12: select_primary_slot equals the documented table --------------------------------
 
-// @harness props=C12,C01 tier=quick timeout=600 mem=8 stubbing=1
+// @harness props=C12,C01 tier=quick timeout=600 mem=8 stubbing=1 replay=native
 // @desc select_primary_slot over all (2PC flag, primary corrupt, secondary corrupt, id order, primary index) equals the table of docs/design.md: under 2PC the primary, or an error if it is corrupt; a corrupt primary yields the secondary, or an error if both are corrupt; a valid strictly newer secondary wins; otherwise the primary. Returned flag == "kept the primary".
 // @functions UnrepairedDatabaseHeader::select_primary_slot, DatabaseHeader::{swap_primary_slot,primary_slot,secondary_slot}
 // @bound none: flags, both transaction ids and the primary index are arbitrary
 // @stubs alloc::fmt::format -> empty string (error messages)
 #[kani::proof]
-#[kani::unwind(4)]
+#[kani::unwind(12)]
 #[kani::stub(alloc::fmt::format, no_format)]
 fn c12_select_slot_table() {
     let p: usize = kani::any();
@@ -208,14 +247,14 @@ fn c12_select_slot_table() {
 
 // ---- C12/C10: slot codec, checksum coverage, no laundering -----------------------------------
 
-// @harness props=C12,C10 tier=quick timeout=600 mem=8 stubbing=1
+// @harness props=C12,C10 tier=quick timeout=600 mem=8 stubbing=1 replay=scenario:slot_alter
 // @desc TransactionHeader: from_bytes(to_bytes(s)) == s and is not corrupted; field offsets are those of docs/design.md (version 0, flags 1-2, user root 8, system root 40, id 104, checksum 112); any alteration of one byte in [0,112) (version byte kept valid) or of the stored checksum makes from_bytes report corrupted; a corrupted slot is written back verbatim (never re-serialised with a fresh checksum) until write_secondary_slot replaces it
 // @functions TransactionHeader::{to_bytes,from_bytes}, BtreeHeader::{to_le_bytes,from_le_bytes}, PageNumber::{to_le_bytes,from_le_bytes}, DatabaseHeader::write_secondary_slot
 // @bound none: every field of the slot, the altered position and the new byte value are arbitrary
 // @stubs xxh3_checksum -> injective uninterpreted function (table-based); alloc::fmt::format -> empty string
 // @assumes checksum is injective on the inputs seen in this run (DESIGN.md 3.4)
 #[kani::proof]
-#[kani::unwind(9)]
+#[kani::unwind(12)]
 #[kani::stub(crate::tree_store::page_store::page_manager::xxh3_checksum, uf_checksum)]
 #[kani::stub(alloc::fmt::format, no_format)]
 fn c12_slot_cover() {
@@ -335,26 +374,26 @@ fn header_total_case(page_size: u32, hdr_pages: u32, max_pages: u32) {
     }
 }
 
-// @harness props=C12,C20 tier=quick timeout=1500 mem=16 stubbing=1
+// @harness props=C12,C20 tier=quick timeout=1500 mem=16 stubbing=1 replay=scenario:header_fuzz
 // @desc UnrepairedDatabaseHeader::from_bytes + recovery_required + finalize on an arbitrary 320-byte header and arbitrary file length never panic or overflow; an accepted header's layout spans exactly the file (so every page address it yields is inside the file), has 1..=MAX_REGIONS regions, and `clean` is reported only when the primary slot was kept, verified, and the stored counts matched the file
 // @functions UnrepairedDatabaseHeader::{from_bytes,recovery_required,finalize,layout_from_file_len,select_primary_slot}, TransactionHeader::from_bytes, DatabaseLayout::{recalculate,len,num_regions,region_base_address,region_layout}, DatabaseHeader::{layout,set_layout}
 // @bound geometry fixed to page size 512, 0 region header pages, 16 data pages per region (division by constants); god byte, counts, both slots and the file length arbitrary
 // @stubs xxh3_checksum -> injective uninterpreted function; alloc::fmt::format -> empty string
 #[kani::proof]
-#[kani::unwind(9)]
+#[kani::unwind(12)]
 #[kani::stub(crate::tree_store::page_store::page_manager::xxh3_checksum, uf_checksum)]
 #[kani::stub(alloc::fmt::format, no_format)]
 fn c12_header_total_g512() {
     header_total_case(512, 0, 16);
 }
 
-// @harness props=C12,C20 tier=thorough timeout=3000 mem=16 stubbing=1
+// @harness props=C12,C20 tier=thorough timeout=3000 mem=16 stubbing=1 replay=scenario:header_fuzz
 // @desc as c12_header_total_g512 with a region header page and a non-power-of-two region size
 // @functions UnrepairedDatabaseHeader::{from_bytes,recovery_required,finalize,layout_from_file_len}
 // @bound geometry fixed to page size 4096, 1 region header page, 1000 data pages per region
 // @stubs xxh3_checksum -> injective uninterpreted function; alloc::fmt::format -> empty string
 #[kani::proof]
-#[kani::unwind(9)]
+#[kani::unwind(12)]
 #[kani::stub(crate::tree_store::page_store::page_manager::xxh3_checksum, uf_checksum)]
 #[kani::stub(alloc::fmt::format, no_format)]
 fn c12_header_total_g4096() {
@@ -363,13 +402,13 @@ fn c12_header_total_g4096() {
 
 // ---- C10: whole-header codec ---------------------------------------------------------------------
 
-// @harness props=C10,C12 tier=quick timeout=900 mem=12 stubbing=1
+// @harness props=C10,C12 tier=quick timeout=900 mem=12 stubbing=1 replay=scenario:header_layout
 // @desc DatabaseHeader::to_bytes emits the documented layout (magic 0..9, god byte 9 with bits primary=1, recovery=2, 2PC=4, page size 12, region header pages 16, region max data pages 20, full regions 24, trailing pages 28, slot 0 at 64, slot 1 at 192) and from_bytes reads every field back; both slots verify
 // @functions DatabaseHeader::to_bytes, UnrepairedDatabaseHeader::from_bytes, TransactionHeader::{to_bytes,from_bytes}
 // @bound geometry 512/0/16; flags, primary index, counts (one valid combination), both slots arbitrary
 // @stubs xxh3_checksum -> injective uninterpreted function; alloc::fmt::format -> empty string
 #[kani::proof]
-#[kani::unwind(9)]
+#[kani::unwind(12)]
 #[kani::stub(crate::tree_store::page_store::page_manager::xxh3_checksum, uf_checksum)]
 #[kani::stub(alloc::fmt::format, no_format)]
 fn c10_header_codec() {
@@ -461,7 +500,7 @@ fn any_i_state(p: usize) -> (DatabaseHeader, TransactionHeader) {
 ///   1 = after the first header write           4 = after the final flush (commit returned)
 ///   2 = after the 2PC flush (2PC only)
 /// `gran` bytes are torn together (1 = byte granular).
-fn crash_step(p: usize, gran: usize) {
+fn crash_step(p: usize, gran: usize, fixed_cut: Option<u8>, fixed_2pc: Option<bool>) {
     let (h0, old) = any_i_state(p);
     let d0 = h0.to_bytes(true);
     // A-TORN part 1: a corrupt secondary in the pre-state does not carry a matching checksum
@@ -471,7 +510,10 @@ fn crash_step(p: usize, gran: usize) {
         kani::assume(uf_checksum(&raw[..SLOT_CHECKSUM_OFFSET]) != u128::from_le_bytes(c));
     }
     // the commit, as commit_events shows commit() performs it
-    let two_phase: bool = kani::any();
+    let two_phase: bool = match fixed_2pc {
+        Some(b) => b,
+        None => kani::any(),
+    };
     let new_id = TransactionId::new(kani::any());
     kani::assume(new_id > old.transaction_id);
     let new_user = any_root();
@@ -484,7 +526,10 @@ fn crash_step(p: usize, gran: usize) {
     h2.two_phase_commit = two_phase;
     let w2 = h2.to_bytes(true);
 
-    let cut: u8 = kani::any();
+    let cut: u8 = match fixed_cut {
+        Some(c) => c,
+        None => kani::any(),
+    };
     kani::assume(cut <= 4);
     kani::assume(two_phase || cut != 2);
     // the disk image after the crash
@@ -569,50 +614,46 @@ fn crash_step(p: usize, gran: usize) {
     kani::cover!(rec.primary_slot != h0.primary_slot && is_old, "old commit recovered from the other index");
 }
 
-// @harness props=C01,C12 tier=quick timeout=2400 mem=24 stubbing=1
-// @desc one durable commit (1PC or 2PC) from any pre-state satisfying invariant I with primary slot 0, crashed at every cut with the god byte and each 16-byte word of the overwritten slot independently persisted or not: the real from_bytes + finalize return Ok; the slot they select is the old commit or the new one, whole (id, data root, system root); it is the new one whenever commit had returned; when the new slot is selected but its pages are not durable the 2PC flag is clear and the other slot is the old commit with a matching checksum; recovery_required stays set
+macro_rules! crash_harness {
+    ($name:ident, $p:expr, $gran:expr, $cut:expr, $tp:expr, $unwind:literal) => {
+        #[kani::proof]
+        #[kani::unwind($unwind)]
+        #[kani::stub(crate::tree_store::page_store::page_manager::xxh3_checksum, uf_checksum)]
+        #[kani::stub(alloc::fmt::format, no_format)]
+        fn $name() {
+            crash_step($p, $gran, $cut, $tp);
+        }
+    };
+}
+
+// @harness props=C01 tier=quick timeout=1800 mem=16 stubbing=1 replay=scenario:crash optcover=survived|kept|other|falls
+// @desc one durable commit from any pre-state satisfying invariant I, crashed at the named cut (1 = after the first header write, 3 = after the second header write, 4 = after the final flush) in the named mode (1pc/2pc) and primary index (p0/p1), with the god byte and each 16-byte word of the overwritten slot independently persisted or not: the real from_bytes + finalize return Ok; the slot they select is the old commit or the new one, whole (id, data root, system root); it is the new one whenever commit had returned; when the new slot is selected but its pages are not durable the 2PC flag is clear and the other slot is the old commit with a matching checksum; recovery_required stays set
 // @functions DatabaseHeader::{write_secondary_slot,swap_primary_slot,to_bytes,primary_slot,secondary_slot}, TransactionHeader::{to_bytes,from_bytes}, UnrepairedDatabaseHeader::{from_bytes,recovery_required,finalize,select_primary_slot,layout_from_file_len}, DatabaseLayout::recalculate
-// @bound one commit step; geometry 512/0/16, one region; torn region = god byte + the 128 bytes of the overwritten slot in 16-byte words; ids, roots, flags, pre-state secondary (valid or arbitrary corrupt bytes) symbolic
+// @bound one commit step; geometry 512/0/16, one region; torn region = god byte + the 128 bytes of the overwritten slot in 16-byte words; ids, roots, pre-state flags, pre-state secondary (valid or arbitrary corrupt bytes) symbolic; cut, commit mode and primary index fixed per harness (all combinations are registered)
 // @stubs xxh3_checksum -> injective uninterpreted function; alloc::fmt::format -> empty string
 // @assumes A-TORN: a slot image whose checksummed part is not byte-identical to one really written does not carry a matching checksum; event order of commit() as proved by c01_commit_events
-#[kani::proof]
-#[kani::unwind(18)]
-#[kani::stub(crate::tree_store::page_store::page_manager::xxh3_checksum, uf_checksum)]
-#[kani::stub(alloc::fmt::format, no_format)]
-fn c01_crash_recover_p0_w16() {
-    crash_step(0, 16);
-}
+crash_harness!(c01_crash_p0_1pc_cut1, 0, 16, Some(1), Some(false), 18);
+crash_harness!(c01_crash_p0_1pc_cut3, 0, 16, Some(3), Some(false), 18);
+crash_harness!(c01_crash_p0_1pc_cut4, 0, 16, Some(4), Some(false), 18);
+crash_harness!(c01_crash_p0_2pc_cut1, 0, 16, Some(1), Some(true), 18);
+crash_harness!(c01_crash_p0_2pc_cut2, 0, 16, Some(2), Some(true), 18);
+crash_harness!(c01_crash_p0_2pc_cut3, 0, 16, Some(3), Some(true), 18);
+crash_harness!(c01_crash_p0_2pc_cut4, 0, 16, Some(4), Some(true), 18);
+crash_harness!(c01_crash_p1_1pc_cut3, 1, 16, Some(3), Some(false), 18);
+crash_harness!(c01_crash_p1_2pc_cut3, 1, 16, Some(3), Some(true), 18);
 
-// @harness props=C01,C12 tier=quick timeout=2400 mem=24 stubbing=1
-// @desc as c01_crash_recover_p0_w16 with primary slot 1 (the commit overwrites slot 0)
-// @functions as c01_crash_recover_p0_w16
-// @bound as c01_crash_recover_p0_w16, primary index 1
+// @harness props=C01 tier=thorough timeout=7200 mem=32 stubbing=1 replay=scenario:crash
+// @desc as the c01_crash_* family with every cut and both commit modes in ONE query (primary index 0 / 1), and - for the _bytes variant - byte-granular tearing (each of the 128 slot bytes independently persisted)
+// @functions as c01_crash_p0_1pc_cut1
+// @bound as c01_crash_p0_1pc_cut1; cut and commit mode symbolic; _bytes: torn byte by byte
 // @stubs xxh3_checksum -> injective uninterpreted function; alloc::fmt::format -> empty string
 // @assumes A-TORN; event order of commit() as proved by c01_commit_events
-#[kani::proof]
-#[kani::unwind(18)]
-#[kani::stub(crate::tree_store::page_store::page_manager::xxh3_checksum, uf_checksum)]
-#[kani::stub(alloc::fmt::format, no_format)]
-fn c01_crash_recover_p1_w16() {
-    crash_step(1, 16);
-}
-
-// @harness props=C01,C12 tier=thorough timeout=7200 mem=32 stubbing=1
-// @desc as c01_crash_recover_p0_w16 with byte-granular tearing (each of the 128 slot bytes independently persisted)
-// @functions as c01_crash_recover_p0_w16
-// @bound as c01_crash_recover_p0_w16, torn byte by byte
-// @stubs xxh3_checksum -> injective uninterpreted function; alloc::fmt::format -> empty string
-// @assumes A-TORN; event order of commit() as proved by c01_commit_events
-#[kani::proof]
-#[kani::unwind(130)]
-#[kani::stub(crate::tree_store::page_store::page_manager::xxh3_checksum, uf_checksum)]
-#[kani::stub(alloc::fmt::format, no_format)]
-fn c01_crash_recover_p0_bytes() {
-    crash_step(0, 1);
-}
+crash_harness!(c01_crash_recover_p0_w16, 0, 16, None, None, 18);
+crash_harness!(c01_crash_recover_p1_w16, 1, 16, None, None, 18);
+crash_harness!(c01_crash_recover_p0_bytes, 0, 1, None, None, 130);
 
 // negative twin: drop the "commit returned" premise - claims the new commit is always recovered
-// @harness props=C01 tier=quick timeout=2400 mem=24 stubbing=1 expect=fail
+// @harness props=C01 tier=quick timeout=2400 mem=24 stubbing=1 expect=fail replay=scenario:crash
 // @desc negative twin of c01_crash_recover: asserts that the new commit is recovered at every cut, which must fail (reachability witness for the crash model)
 // @functions as c01_crash_recover_p0_w16
 // @bound as c01_crash_recover_p0_w16
